@@ -606,6 +606,11 @@ func ruleCarveCap(c *Ctx, rule string, shorts ...string) {
 					if phi, ok := sl.X.(*ssa.Phi); ok {
 						shared = true
 						_ = phi
+					} else if ap := builtinCall(sl.X, "append"); ap != nil {
+						// the block grows round the loop (buf = append(buf, col...)) and the column is its tail
+						if _, ok := ap.Call.Args[0].(*ssa.Phi); ok {
+							shared = true
+						}
 					} else if refs := sl.X.Referrers(); refs != nil {
 						cuts := 0
 						for _, r := range *refs {
@@ -1280,11 +1285,26 @@ func ruleEndCellPlain(c *Ctx, rule string, fns []*ssa.Function) {
 					if rejectsFrom(d, d.Succs[0]) || rejectsFrom(d, d.Succs[1]) || d == inner.head {
 						continue
 					}
+					// the exit test of a loop that has finished before the record (a clamp over the cell's layers)
+					finished := false
+					for _, l := range loops {
+						if l.head == d && !l.body[pred] {
+							finished = true
+						}
+					}
+					if finished {
+						continue
+					}
 					if !allowed(bo.X) || !allowed(bo.Y) {
 						bad = bo
 					}
 				}
 			}
+		}
+		if n == 0 {
+			// the variables live in memory (a closure of the traceback captures i, j, maxI, maxJ and score):
+			// the record is a block of stores
+			n, bad, badOther = endCellRecordInMemory(fn, loops, counters)
 		}
 		switch {
 		case n == 0:
@@ -1297,6 +1317,171 @@ func ruleEndCellPlain(c *Ctx, rule string, fns []*ssa.Function) {
 			c.ok(rule, key, fn.Pos(), "the end cell is recorded under comparisons of the score (with the best so far, with zero) only")
 		}
 	}
+}
+
+// endCellRecordInMemory: the same judgement as above for variables that are not
+// in registers: a block that stores two loop counters and a score into three
+// other variables is the record; the tests in front of it inside its loop may
+// only compare the score (any load of its variable, the candidates of the max
+// that produced it) with the best so far (loads of the variable the score is
+// stored into) or with constants.
+func endCellRecordInMemory(fn *ssa.Function, loops []*ssaLoop, regCounters map[ssa.Value]bool) (n int, bad *ssa.BinOp, badOther ssa.Value) {
+	loadOf := func(v ssa.Value) *ssa.Alloc {
+		u, ok := v.(*ssa.UnOp)
+		if !ok || u.Op != token.MUL {
+			return nil
+		}
+		al, _ := u.X.(*ssa.Alloc)
+		return al
+	}
+	// counters in memory: x = x + const
+	counter := map[*ssa.Alloc]bool{}
+	for _, b := range fn.Blocks {
+		for _, ins := range b.Instrs {
+			st, ok := ins.(*ssa.Store)
+			if !ok {
+				continue
+			}
+			al, ok := st.Addr.(*ssa.Alloc)
+			if !ok {
+				continue
+			}
+			if bo, ok := st.Val.(*ssa.BinOp); ok && (bo.Op == token.ADD || bo.Op == token.SUB) {
+				if _, isK := bo.Y.(*ssa.Const); isK && loadOf(bo.X) == al {
+					counter[al] = true
+				}
+			}
+		}
+	}
+	for _, rb := range fn.Blocks {
+		var scoreSrc ssa.Value
+		var bestVar *ssa.Alloc
+		nCounters := 0
+		for _, ins := range rb.Instrs {
+			st, ok := ins.(*ssa.Store)
+			if !ok {
+				continue
+			}
+			dst, ok := st.Addr.(*ssa.Alloc)
+			if !ok || counter[dst] {
+				continue
+			}
+			if src := loadOf(st.Val); src != nil && counter[src] {
+				nCounters++
+				continue
+			}
+			if regCounters[st.Val] {
+				nCounters++ // a counter still in a register stored into a captured variable
+				continue
+			}
+			if q, _, ok := linearIn(st.Val); ok && regCounters[q] {
+				nCounters++
+				continue
+			}
+			if _, isK := st.Val.(*ssa.Const); !isK && isIntegral(st.Val.Type()) {
+				scoreSrc, bestVar = st.Val, dst
+			}
+		}
+		// the best score itself may have stayed in a register: a phi of the join behind the record
+		bestVals := map[ssa.Value]bool{}
+		if scoreSrc == nil && nCounters >= 2 {
+			for _, sb := range rb.Succs {
+				for pi, pr := range sb.Preds {
+					if pr != rb {
+						continue
+					}
+					for _, ins := range sb.Instrs {
+						phi, ok := ins.(*ssa.Phi)
+						if !ok {
+							break
+						}
+						e := phi.Edges[pi]
+						if _, isK := e.(*ssa.Const); isK || !isIntegral(phi.Type()) || regCounters[e] {
+							continue
+						}
+						scoreSrc = e
+						bestVals[phi] = true
+						for qi, oe := range phi.Edges {
+							if qi != pi {
+								bestVals[oe] = true
+							}
+						}
+					}
+				}
+			}
+		}
+		if nCounters < 2 || scoreSrc == nil {
+			continue
+		}
+		var inner *ssaLoop
+		for _, l := range loops {
+			if l.body[rb] && (inner == nil || len(l.body) < len(inner.body)) {
+				inner = l
+			}
+		}
+		if inner == nil {
+			continue
+		}
+		n++
+		scoreVar := loadOf(scoreSrc)
+		cands := map[ssa.Value]bool{}
+		if scoreVar != nil {
+			for _, r := range *scoreVar.Referrers() {
+				if st, ok := r.(*ssa.Store); ok && st.Addr == ssa.Value(scoreVar) {
+					v := st.Val
+					if bo, ok := v.(*ssa.BinOp); ok && bo.Op == token.ADD {
+						v = bo.X
+					}
+					if call, ok := v.(*ssa.Call); ok {
+						if g := call.Call.StaticCallee(); g != nil && strings.HasPrefix(g.Name(), "max") {
+							for _, a := range call.Call.Args {
+								cands[a] = true
+							}
+						}
+					}
+				}
+			}
+		}
+		allowed := func(v ssa.Value) bool {
+			if v == scoreSrc || cands[v] || bestVals[v] {
+				return true
+			}
+			if _, isK := v.(*ssa.Const); isK {
+				return true
+			}
+			if al := loadOf(v); al != nil && ((bestVar != nil && al == bestVar) || (scoreVar != nil && al == scoreVar)) {
+				return true
+			}
+			return false
+		}
+		for d := rb.Idom(); d != nil && inner.body[d]; d = d.Idom() {
+			ifi, ok := d.Instrs[len(d.Instrs)-1].(*ssa.If)
+			if !ok || forcedEdge(d, rb) < 0 {
+				continue
+			}
+			bo, ok := ifi.Cond.(*ssa.BinOp)
+			if !ok {
+				badOther = ifi.Cond
+				continue
+			}
+			if rejectsFrom(d, d.Succs[0]) || rejectsFrom(d, d.Succs[1]) || d == inner.head {
+				continue
+			}
+			finished := false
+			for _, l := range loops {
+				if l.head == d && !l.body[rb] {
+					finished = true
+				}
+			}
+			if finished {
+				continue
+			}
+			if !allowed(bo.X) || !allowed(bo.Y) {
+				bad = bo
+			}
+		}
+	}
+	return n, bad, badOther
 }
 
 // ---- tracelayer (C09): an affine traceback step is a transition of the layer it is in ----
